@@ -57,10 +57,18 @@ class DiskProject:
 
 
 def is_restored(root_entry: Any) -> bool:
-	"""True iff the lark tree behind the entry was built by Serialization.loads (its metas never get `start_pos`)."""
-	src = root_entry.source
-	meta = getattr(src, '_meta', None)
-	return meta is not None and not meta.empty and not hasattr(meta, 'start_pos')
+	"""True iff the lark tree behind the entry was built by Serialization.loads rather than by the parser: the lexer stamps
+	`start_pos` on every token, `lark.Token(name, value)` in `__loads` leaves it None (independent of the position
+	attributes the properties are about). A tree without any token counts as not restored."""
+	import lark
+	stack = [root_entry.source]
+	while stack:
+		e = stack.pop()
+		if type(e) is lark.Token:
+			return e.start_pos is None
+		if type(e) is lark.Tree:
+			stack.extend(reversed(e.children))
+	return False
 
 
 def all_paths(entrypoint: Any) -> list[str]:
